@@ -6,7 +6,7 @@ THEOREMS = ["Props.C09." + t for t in [
     "old_reads_new", "new_reads_old",
     "tables_match", "unknown_append_write", "append_agrees_with_skip", "depth_limit",
     "ku_no_unknown_is_std", "ku_reads_like_std", "carrying_iff", "keep_roundtrip", "chain",
-    "union_unknown_member_not_rewritable"]]
+    "union_unknown_member_rewritten"]]
 
 def run(ctx):
     exe = ctx.go_build("c09")
@@ -18,7 +18,7 @@ def run(ctx):
                         "protocol Skip modelled as strict untyped decode to depth 64 (Gen.Std.skipW); tie (b) feeds well-formed bytes only",
                         "Go reflect in the batch driver"]
     ctx.partial += ["keep_roundtrip / chain / carrying_iff / ku_no_unknown_is_std are one-struct-level statements: fields added INSIDE nested structs are covered by correspondence (b) only",
-                    "keep_roundtrip excludes unions (kind ≠ 1): for a union the statement is false on model and code — union_unknown_member_not_rewritable is the witness"]
+                    "union_unknown_member_rewritten is a computed regression witness (before the fix of the union Write check keep_roundtrip was false for unions)"]
     if exe:
         rc, gen = core.sh([exe, "extract", "-repo", core.REPO])
         ctx.obligation("translator:c09-extract", rc == 0, gen[-2000:] if rc else "")
